@@ -566,3 +566,17 @@ def else_normal(fn: ast.FunctionDef) -> ast.FunctionDef:
     _cache[k] = new
     _keep.append(fn)
     return new
+
+
+def preorder_index(fn) -> dict:
+    """id(node) -> position in a depth-first, source-order walk (usable where line numbers are not: inlined code
+    carries the line of the call it replaced)"""
+    out = {}
+
+    def go(n):
+        out[id(n)] = len(out)
+        for c in ast.iter_child_nodes(n):
+            go(c)
+
+    go(fn)
+    return out
